@@ -516,8 +516,8 @@ def pure_json(j):
     import math
     if j is None or isinstance(j, bool):
         return True
-    if isinstance(j, enum.Enum):
-        return False
+    if isinstance(j, enum.Enum) and not isinstance(j, (str, int, float)):
+        return False        # a member of a plain enum; a member of a mix-in enum IS a str/int/float (json.dumps renders it so)
     if isinstance(j, (str, int)):
         return True
     if isinstance(j, float):
@@ -525,7 +525,7 @@ def pure_json(j):
     if isinstance(j, list):
         return all(pure_json(x) for x in j)
     if isinstance(j, dict):
-        return all((k is None or (isinstance(k, (str, int, float, bool)) and not isinstance(k, enum.Enum))) and pure_json(x)
+        return all((k is None or isinstance(k, (str, int, float, bool))) and pure_json(x)
                    for k, x in j.items())
     return False
 
@@ -631,6 +631,31 @@ def differs_only_in_dates(x, cls, compact):
     finally:
         TypedPyDefaults.compact_deserialization_default = old
     return loose_eq(y, x, ignore_dates=True)
+
+
+def stored_state_valid(v, depth=0):
+    """C05 speaks of VALID instances.  The constructor checks collection constraints (uniqueItems, minItems/maxItems of
+    Set/Map) on the SUPPLIED elements, before they are converted one by one (root cause "normalised collision":
+    C01-/C02-normalised-collision, C03-F20): [SwapN.C, 'A', SwapN.A] passes uniqueItems and is stored as
+    [SwapN.C, SwapN.A, SwapN.A], which the declaration itself rejects.  Such a stored state is not a valid instance.
+    True iff every Structure reachable from v (at any depth, v included) is accepted again by its own class when
+    rebuilt from its stored state, and equals the result."""
+    from typedpy import Structure
+    if depth > 14 or v is None:
+        return True
+    if isinstance(v, Structure):
+        state = {k: a for k, a in v.__dict__.items() if k not in SG.S.INTERNAL}
+        try:
+            if type(v)(**state) != v:
+                return False
+        except Exception:  # noqa
+            return False
+        return all(stored_state_valid(a, depth + 1) for a in state.values())
+    if isinstance(v, dict):
+        return all(stored_state_valid(k, depth + 1) and stored_state_valid(a, depth + 1) for k, a in v.items())
+    if isinstance(v, (list, tuple, set, frozenset, collections.deque)):
+        return all(stored_state_valid(a, depth + 1) for a in v)
+    return True
 
 
 def compact_wrapper(cls):
